@@ -32,7 +32,7 @@ BASE = dict(WTYPES="4", MAXDEPTH=1, INDEXES="0", HARDS="TRUE", SUBS="1", KEYCNTS
             ATYPES=q("p2kh"), NETS="FALSE", PASSKINDS=q("ascii"), MNEMS=q("plain"))
 ALL_AT = q("p2kh", "segwit", "bech32", "tap", "pks")
 ALL_PK = q("ascii", "nonascii", "long", "prefixed")
-ALL_MN = q("plain", "messy", "pass", "badsum", "badword")
+ALL_MN = q("plain", "messy", "pass", "pass_space", "pass_lead", "pass_trail", "pass_tab", "pass_nl", "pass_inner", "pass_nonascii", "badsum", "badword")
 
 
 def fam(**kw):
